@@ -95,7 +95,7 @@ def parseOp (j : Json) : Except String Op := do
   let o ← getStr j "op"
   match o with
   | "newValue" => return .newValue (← getOpt j "name" asStr)
-  | "setConst" => return .setConst (← getNat j "v")
+  | "setConst" => return .setConst (← getNat j "v") ((← getOpt j "locked" (fun x => (fromJson? x : Except String Bool))).getD false)
   | "newNode" =>
     return .newNode (← getStr j "opType") (← getOpt j "name" asStr) (← getOptNatList j "inputs")
       (← getOpt j "numOutputs" asInt) (← getOpt j "outputs" (asList asNat)) (← getOpt j "graph" asNat)
